@@ -143,7 +143,7 @@ fn load_and_dispatch(path: &str, into: ConfigState, th: &mut TraceHash, log: &mu
 }
 
 /// declared == loaded
-fn compare(m: &Model, o: &obs::Observed, feature: &str, v: &mut Vec<Violation>) {
+pub(crate) fn compare(m: &Model, o: &obs::Observed, feature: &str, v: &mut Vec<Violation>) {
     // a documented-valid feature of the file keys everything; a duplicated declaration only keys the
     // objects it names
     let trig_of = |k: &str| -> &str { if m.features.contains(feature) { feature } else if m.dup_routes.contains(k) { "duplicate_route" } else if m.dup_l4.contains(k) { "duplicate_l4_frontend" } else { "none" } };
@@ -210,7 +210,7 @@ fn states_equal(a: &ConfigState, b: &ConfigState) -> Option<&'static str> {
 }
 
 /// trigger classification from the *model's* view of the file (never from sozu's behaviour)
-fn trigger_of(m: &Model) -> String {
+pub(crate) fn trigger_of(m: &Model) -> String {
     if let Some(f) = m.features.iter().next() { return f.clone(); }
     if !m.dup_routes.is_empty() { return "duplicate_route".into(); }
     if !m.dup_l4.is_empty() { return "duplicate_l4_frontend".into(); }
@@ -327,7 +327,7 @@ fn check_document(text: &str, dir: &std::path::Path, name: &str, role: &str, ful
 /// create HashMaps on first use and thereby shift the per-thread hash-key counter of whichever run
 /// comes first in a process. Exercise every stage once, on a throw-away thread, before the first
 /// real run so that the hash order seen by a plan does not depend on what ran before it.
-fn warm_up() {
+pub(crate) fn warm_up() {
     static WARM: std::sync::Once = std::sync::Once::new();
     WARM.call_once(|| {
         crate::netsim::on_fresh_thread(|| {
@@ -494,8 +494,12 @@ fn shrink_cfg(c: &Cfg) -> Vec<(Cfg, Shift)> {
 impl Property for C20 {
     fn id(&self) -> &'static str { "C20" }
     fn runs(&self, tier: Tier) -> u64 { match tier { Tier::Quick => 20_000, Tier::Thorough => 1_000_000 } }
-    fn gen_plan(&self, seed: u64, tier: Tier) -> Value { serde_json::to_value(gen_::generate(seed, tier)).unwrap() }
+    fn gen_plan(&self, seed: u64, tier: Tier) -> Value {
+        if let Some(p) = super::hubcfg::dispatch_gen("C20", seed, tier) { return p; } // hubcfg: main-process tier
+        serde_json::to_value(gen_::generate(seed, tier)).unwrap()
+    }
     fn run_plan(&self, plan: &Value) -> RunReport {
+        if let Some(r) = super::hubcfg::dispatch_run(plan) { return r; } // hubcfg
         let p: Plan = match serde_json::from_value(plan.clone()) { Ok(p) => p, Err(e) => return RunReport { harness_error: Some(format!("bad plan: {e}")), ..Default::default() } };
         if std::env::var("SIMK_C20_DEBUG").is_ok() { eprintln!("{}", self.debug_plan(plan)); }
         let o = run(&p, false);
@@ -509,6 +513,7 @@ impl Property for C20 {
         rep
     }
     fn shrink(&self, plan: &Value) -> Vec<Value> {
+        if let Some(c) = super::hubcfg::dispatch_shrink(plan) { return c; } // hubcfg
         let Ok(p) = serde_json::from_value::<Plan>(plan.clone()) else { return vec![] };
         let mut out = Vec::new();
         // a violation of a neighbour only needs that neighbour; a violation of the base needs none
@@ -524,6 +529,7 @@ impl Property for C20 {
         out.into_iter().map(|p| serde_json::to_value(p).unwrap()).collect()
     }
     fn debug_plan(&self, plan: &Value) -> String {
+        if let Some(d) = super::hubcfg::dispatch_debug(plan) { return d; } // hubcfg
         let Ok(p) = serde_json::from_value::<Plan>(plan.clone()) else { return "bad plan".into() };
         let o = run(&p, true);
         let mut s = o.log.join("\n");
